@@ -22,6 +22,12 @@ def main():
         for k, v in spec.get("env", {}).items():
             os.environ[k] = v
     os.environ["VF_MODE"] = "replay"
+    # the code under test prints (warnings, tracebacks of handler faults): discard it process-wide
+    # (contextlib.redirect_stdout is not thread-safe and the run thread prints too)
+    out = sys.stdout
+    if os.environ.get("VF_REPLAY_VERBOSE") != "1":
+        sys.stdout = open(os.devnull, "w")
+        sys.stderr = sys.stdout
     here = os.path.dirname(os.path.dirname(os.path.abspath(__file__)))
     src = os.path.join(here, "harness", spec["module"] + ".py")
     sp = importlib.util.spec_from_file_location("harness_" + spec["module"], src)
@@ -48,10 +54,12 @@ def main():
         res["fails"] = list(rt.FAILS) + [[sig, f"{type(e).__name__}: {e}"]]
     res["suppressed"] = sorted(set(rt.SUPPRESSED))
     res["reproduced"] = bool(res["fails"])
-    print("REPLAY-RESULT " + json.dumps(res, default=repr))
+    print("REPLAY-RESULT " + json.dumps(res, default=repr), file=out)
     for sig, d in res["fails"]:
-        print(f"FAIL {sig}: {d}")
-    sys.exit(1 if res["reproduced"] else 0)
+        print(f"FAIL {sig}: {d}", file=out)
+    out.flush()
+    # real (non-daemon) worker threads of simulators that never ended would keep the process alive
+    os._exit(1 if res["reproduced"] else 0)
 
 
 if __name__ == "__main__":
